@@ -14,7 +14,9 @@ CONSTANTS LeafEq,        \* "identity" | "name"
           Cap,           \* capacity of each LRU
           MaxOps,        \* bound on the history length (model checking)
           DegreePins,    \* TRUE: an entry of the identity-keyed degree memo keeps its expression alive (intended TRUE)
-          Acts           \* enabled groups of actions, subset of {"compile", "life"}
+          Acts,          \* enabled groups of actions, subset of {"compile", "life", "buffer"}
+          MemoChecksContent  \* TRUE: a memo keyed by the identity of a caller-owned array is valid only for the content it
+                             \* was computed from (intended TRUE; the code has no such memo at all)
 
 E(i, k, n, o) == [id |-> i, kind |-> k, name |-> n, owner |-> o]
 pM == E(1, "par", "p", "M")   xM == E(2, "var", "x", "M")   nM == E(3, "node", "", "M")
@@ -31,8 +33,11 @@ KeyEq(a, b) == IF a.kind = "node" \/ b.kind = "node" THEN a.id = b.id
 
 VARIABLES gCompile, gGrad, hist, obs, nfill,
           at,            \* object lifetime: address of the (deep) objective of each model, 0 = not built / dropped
-          gDeg           \* degree memo keyed by the identity (address) of the expression
-vars == <<gCompile, gGrad, hist, obs, nfill, at, gDeg>>
+          gDeg,          \* degree memo keyed by the identity (address) of the expression
+          bufver,        \* content version of a caller-owned NumPy array shared by successive models (updated in place)
+          built,         \* which models have a quadratic form over that array
+          gSym           \* derived data (Q + Q') remembered for "the last matrix seen": None or the content version it was computed from
+vars == <<gCompile, gGrad, hist, obs, nfill, at, gDeg, bufver, built, gSym>>
 NoObs == [q |-> 0, served |-> 0, what |-> "none"]
 
 Find(cache, pred(_)) == IF \E i \in 1..Len(cache) : pred(cache[i]) THEN CHOOSE i \in 1..Len(cache) : pred(cache[i]) /\ \A j \in 1..(i - 1) : ~pred(cache[j]) ELSE 0
@@ -51,7 +56,7 @@ Compile(e) ==
        /\ gCompile' = r.cache
        /\ obs' = [q |-> e.id, served |-> r.served.id, what |-> "compile"]
     /\ hist' = Append(hist, <<"Compile", e.id>>)
-    /\ UNCHANGED <<gGrad, nfill, at, gDeg>>
+    /\ UNCHANGED <<gGrad, nfill, at, gDeg, bufver, built, gSym>>
 \* compile_gradient(node, [x]): gradient (cached on (expr, wrt)), then compile the gradient expression
 GradCompile(e) ==
     /\ Len(hist) < MaxOps /\ e.kind = "node" /\ e.owner \in {"M", "N"}
@@ -64,7 +69,7 @@ GradCompile(e) ==
           \* the closure must read the parameter of the model that was differentiated
           /\ obs' = [q |-> GradOf(e).id, served |-> r.served.id, what |-> "gradient"]
     /\ hist' = Append(hist, <<"GradCompile", e.id>>)
-    /\ UNCHANGED <<nfill, at, gDeg>>
+    /\ UNCHANGED <<nfill, at, gDeg, bufver, built, gSym>>
 \* compile_hessian(node, [x, y]): every entry of the symbolic Hessian is compiled through the compile cache;
 \* the mixed entry of p * x * y is the parameter leaf
 HessCompile(e) ==
@@ -73,7 +78,7 @@ HessCompile(e) ==
        /\ gCompile' = r.cache
        /\ obs' = [q |-> GradOf(e).id, served |-> r.served.id, what |-> "hessian"]
     /\ hist' = Append(hist, <<"HessCompile", e.id>>)
-    /\ UNCHANGED <<gGrad, nfill, at, gDeg>>
+    /\ UNCHANGED <<gGrad, nfill, at, gDeg, bufver, built, gSym>>
 \* unrelated expressions pass through the caches (eviction)
 Fill ==
     /\ Len(hist) < MaxOps /\ nfill < Cap + 1
@@ -81,7 +86,7 @@ Fill ==
     /\ gGrad' = Insert(gGrad, [key |-> Filler(nfill), wrt |-> xN, result |-> Filler(nfill)])
     /\ nfill' = nfill + 1 /\ obs' = NoObs
     /\ hist' = Append(hist, <<"Fill", nfill>>)
-    /\ UNCHANGED <<at, gDeg>>
+    /\ UNCHANGED <<at, gDeg, bufver, built, gSym>>
 
 (* ---- object lifetime and the identity-keyed degree memo --------------------------------------
    compute_degree memoises on the identity of the expression.  Identities (addresses) are reused
@@ -96,38 +101,68 @@ Build(o) ==
     /\ Len(hist) < MaxOps /\ at[o] = 0
     /\ \E a \in Addrs \ Occupied : at' = [at EXCEPT ![o] = a]
     /\ obs' = NoObs /\ hist' = Append(hist, <<"Build", o>>)
-    /\ UNCHANGED <<gCompile, gGrad, nfill, gDeg>>
+    /\ UNCHANGED <<gCompile, gGrad, nfill, gDeg, bufver, built, gSym>>
 Drop(o) ==
     /\ Len(hist) < MaxOps /\ at[o] # 0
     /\ at' = [at EXCEPT ![o] = 0]
     /\ obs' = NoObs /\ hist' = Append(hist, <<"Drop", o>>)
-    /\ UNCHANGED <<gCompile, gGrad, nfill, gDeg>>
+    /\ UNCHANGED <<gCompile, gGrad, nfill, gDeg, bufver, built, gSym>>
 Degree(o) ==
     /\ Len(hist) < MaxOps /\ at[o] # 0
     /\ LET i == Find(gDeg, LAMBDA ent : ent.addr = at[o]) IN
        /\ gDeg' = IF i # 0 THEN Touch(gDeg, i) ELSE Insert(gDeg, [addr |-> at[o], of |-> o])
        /\ obs' = [q |-> o, served |-> IF i # 0 THEN gDeg[i].of ELSE o, what |-> "degree"]
     /\ hist' = Append(hist, <<"Degree", o>>)
-    /\ UNCHANGED <<gCompile, gGrad, nfill, at>>
+    /\ UNCHANGED <<gCompile, gGrad, nfill, at, bufver, built, gSym>>
 \* unrelated expressions are classified (eviction from the degree memo; their entries sit at other addresses)
 FillDeg ==
     /\ Len(hist) < MaxOps /\ nfill < Cap + 1
     /\ gDeg' = Insert(gDeg, [addr |-> 100 + nfill, of |-> 100 + nfill])
     /\ nfill' = nfill + 1 /\ obs' = NoObs
     /\ hist' = Append(hist, <<"FillDeg", nfill>>)
-    /\ UNCHANGED <<gCompile, gGrad, at>>
+    /\ UNCHANGED <<gCompile, gGrad, at, bufver, built, gSym>>
+
+(* ---- a caller-owned array shared by successive models --------------------------------------
+   Rolling-horizon use: one covariance buffer, refreshed in place (Sigma[:] = new) between models.  A
+   QuadraticForm references the live array, so whatever is derived from it must be derived from its
+   CURRENT content; remembering derived data "for the last matrix seen" by identity alone is cross-talk
+   between the model that was differentiated before the refresh and the one differentiated after. *)
+NoMemo == [none |-> TRUE]
+\* built[o]: "no" | "fresh" (built from the array's current content, which has not changed since) | "stale" (the caller
+\* refreshed the array under a model that references it: what that model denotes is the caller's own aliasing, not judged)
+BuildQF(o) ==
+    /\ Len(hist) < MaxOps /\ built[o] # "fresh"
+    /\ built' = [built EXCEPT ![o] = "fresh"] /\ obs' = NoObs /\ hist' = Append(hist, <<"BuildQF", o>>)
+    /\ UNCHANGED <<gCompile, gGrad, nfill, at, gDeg, bufver, gSym>>
+Mutate ==
+    /\ Len(hist) < MaxOps /\ \E o \in DOMAIN built : built[o] = "fresh"
+    /\ bufver' = 1 - bufver /\ obs' = NoObs /\ hist' = Append(hist, <<"Mutate", 0>>)
+    /\ built' = [o \in DOMAIN built |-> IF built[o] = "fresh" THEN "stale" ELSE built[o]]
+    /\ UNCHANGED <<gCompile, gGrad, nfill, at, gDeg, gSym>>
+GradQF(o) ==
+    /\ Len(hist) < MaxOps /\ built[o] # "no"
+    /\ LET hit == gSym # NoMemo /\ (MemoChecksContent => gSym.ver = bufver)
+           used == IF hit THEN gSym.ver ELSE bufver IN
+       /\ gSym' = [ver |-> used]
+       /\ obs' = [q |-> bufver, served |-> used, what |-> IF built[o] = "fresh" THEN "qfgrad" ELSE "qfgrad-stale"]
+    /\ hist' = Append(hist, <<"GradQF", o>>)
+    /\ UNCHANGED <<gCompile, gGrad, nfill, at, gDeg, bufver, built>>
 
 Init == gCompile = <<>> /\ gGrad = <<>> /\ hist = <<>> /\ obs = NoObs /\ nfill = 0
         /\ at = [o \in Deep |-> 0] /\ gDeg = <<>>
+        /\ bufver = 0 /\ built = [o \in {"M", "N"} |-> "no"] /\ gSym = NoMemo
 Next == \/ "compile" \in Acts /\ ((\E e \in Exprs : Compile(e)) \/ (\E e \in {nM, nN} : GradCompile(e) \/ HessCompile(e)) \/ Fill)
         \/ "life" \in Acts /\ ((\E o \in Deep : Build(o) \/ Drop(o) \/ Degree(o)) \/ FillDeg)
+        \/ "buffer" \in Acts /\ ((\E o \in {"M", "N"} : BuildQF(o) \/ GradQF(o)) \/ Mutate)
 Spec == Init /\ [][Next]_vars
 
 ById(i) == CHOOSE e \in Exprs : e.id = i
 \* C14: what is served for a query was built from the queried object whenever the artefact depends on
 \* the object (parameters read their own value; variable leaves only contribute an index)
-C14_NoCrossTalk == (obs.what # "none" /\ obs.q <= 6 /\ ById(obs.q).kind # "var") => obs.served = obs.q
+C14_NoCrossTalk == (obs.what \in {"compile", "gradient", "hessian"} /\ obs.q <= 6 /\ ById(obs.q).kind # "var") => obs.served = obs.q
 \* the degree reported for an expression is the degree of that expression, never a dead object's
 C14_DegreeOwn == obs.what = "degree" => obs.served = obs.q
+\* derivatives of a form built over the shared array's current content are computed from that content
+C14_BufferCurrent == obs.what = "qfgrad" => obs.served = obs.q
 C14_Bounded == Len(gCompile) <= Cap /\ Len(gGrad) <= Cap /\ Len(gDeg) <= Cap
 =============================================================================
